@@ -1,11 +1,14 @@
 SPECIFICATION Spec
-CONSTANTS NSwaps = 3
+CONSTANTS StrictSC = TRUE
+ NSwaps = 3
  OrdFirst = "rlx"
  OrdConfirm = "sc"
  OrdSlotSwap = "sc"
  OrdStSwap = "sc"
  OrdPayOk = "rel"
  OrdPayFail = "rlx"
+ OrdPayOkW = "sc"
+ OrdPayFailW = "sc"
  OrdPayFailR4 = "acq"
 INVARIANT Safe
 CHECK_DEADLOCK FALSE
